@@ -105,6 +105,7 @@ type SliceV struct {
 	SeqP   Term // SlSeq of nodeRef: pointer components (Array Int Ref)
 	SeqT   Term // SlSeq of nodeRef: tag components (Array Int Int/BV8); SlSeq of int: values
 	IsNil  Term // may be nil slice
+	MaxLen int  // static upper bound of Len (slices of fixed arrays); 0 = unknown
 }
 
 // IfaceV: interface value with statically known dynamic type (or abstract).
